@@ -695,8 +695,29 @@ func (e *Exec) builtin(s *State, ins ssa.Instruction, b *ssa.Builtin, c *ssa.Cal
 	return nil
 }
 
+// Channels: the only state modelled is "has been closed" (ghost heap keyed by the channel reference).
+// Sending on a closed channel and closing a closed or nil channel panic: safety obligations.
+const chanClosedHeap = "G:chan.closed"
+
+var chanClosedSort = arraySort(RefSort, "Bool")
+
+func (e *Exec) chanClosed(s *State, ch *Node) *Node {
+	return Select(e.heap(s, chanClosedHeap, chanClosedSort), ch)
+}
+
 func (e *Exec) closeChan(s *State, ins ssa.Instruction, ch Value) {
-	e.logAbs("close(chan): no effect modelled")
+	c := ch.(*Node)
+	if e.safety {
+		e.addObl(s, e.oblName("safety/chan-close"), "safety", And(Not(Eq(c, IntLit(0))), Not(e.chanClosed(s, c))), ins.Pos(), "close of a nil or already closed channel")
+	}
+	h := e.heap(s, chanClosedHeap, chanClosedSort)
+	e.setHeap(s, chanClosedHeap, Store(h, c, tTrue), c)
+}
+
+func (e *Exec) sendSafety(s *State, ch Value, pos token.Pos) {
+	if c, ok := ch.(*Node); ok && e.safety {
+		e.addObl(s, e.oblName("safety/chan-send"), "safety", Not(e.chanClosed(s, c)), pos, "send on a closed channel")
+	}
 }
 
 func (e *Exec) copyBuiltin(s *State, c *ssa.CallCommon, args []Value) Value {
@@ -977,6 +998,9 @@ func (e *Exec) selectInstr(s *State, x *ssa.Select) Value {
 	s.assume(And(e.ile(lo, idx), e.ilt(idx, e.idx(int64(n)))))
 	out := []Value{idx, TS.Fresh("selok", "Bool")}
 	for _, st := range x.States {
+		if st.Dir == types.SendOnly {
+			e.sendSafety(s, e.val(s, st.Chan), x.Pos())
+		}
 		if st.Dir == types.SendOnly && e.quiet == 0 {
 			e.assertValInv(s, e.val(s, st.Send), st.Send.Type(), x, "sent on a channel (select)")
 			for _, ci := range e.chanInvsFor(st.Chan) {
@@ -997,6 +1021,7 @@ func (e *Exec) selectInstr(s *State, x *ssa.Select) Value {
 }
 
 func (e *Exec) sendInstr(s *State, x *ssa.Send) {
+	e.sendSafety(s, e.val(s, x.Chan), x.Pos())
 	e.assertValInv(s, e.val(s, x.X), x.X.Type(), x, "sent on a channel")
 	if e.quiet == 0 {
 		for _, ci := range e.chanInvsFor(x.Chan) {
@@ -1017,6 +1042,9 @@ func (e *Exec) chanSendSite(s *State, x *ssa.Send) {}
 // sortForHeapName derives the SMT sort of a heap from its name (G:Owner.field, A:<elem>[.path],
 // H:<pkg.T>.path).
 func (e *Exec) sortForHeapName(name string) string {
+	if name == chanClosedHeap {
+		return chanClosedSort
+	}
 	switch {
 	case strings.HasPrefix(name, "G:"):
 		if gf, ok := e.v.db.Ghost[name[2:]]; ok {
